@@ -6,12 +6,15 @@ import Slock.Model.Conn
 events (arguments after the listed ones are descriptive and ignored):
   o b|t            open a binary / text connection              → ok
   i <c> <cid>      INIT with client id                          → i0 | i1 (id was free / already registered) | ign
-  w <c> <tok> 0|1  register a will (1 = the engine answers it in the submitting call)   → ok | ign
+  w <c> <tok> 0|1 [0|1]  register a will (first bit: the engine answers it in the submitting call; second bit:
+                   the protocol answers it itself — unknown db — and it never reaches the engine)   → ok | ign
   q <c> <tok>      a lock/unlock request whose reply is addressed through c's proxy       → ok | ign
   d <tok>          the engine answers token tok                 → ><conn> | drop | lost+<close result>
-  x <c> c|e|s      connection ends (client EOF / protocol error / server side)
-                   → W[tok:res,…] (wills executed in order; res = q queued in the engine | ><conn> | drop)
+  x <c> c|e|s|q    connection ends (client EOF / protocol error / server side / binary QUIT command)
+                   → W[tok:res,…] (wills executed in order; res = q queued in the engine | ><conn> | drop,
+                     prefixed with s when the protocol answered the will itself)
                      | crash | defer (blocked text connection: noticed at the next write) | noop | ign
+  a <c>            binary ADMIN command: a nested text protocol (a new record, numbered like an `o`) takes over c's stream → ok | ign
   t                one second of server time (nothing for this model)  → -
 -/
 namespace Driver
@@ -23,11 +26,11 @@ def showDest : Dest → String
   | .lost _ => "lost"
   | .loop => "crash"
 
-def showCloseRes (res : List (Nat × Option Dest)) (f : Option Fatal) : String :=
+def showCloseRes (res : List WillRes) (f : Option Fatal) : String :=
   match f with
   | some .crash => "crash"
   | none =>
-    "W[" ++ ",".intercalate (res.map (fun p => s!"{p.1}:" ++ (match p.2 with | none => "q" | some d => showDest d))) ++ "]"
+    "W[" ++ ",".intercalate (res.map (fun p => s!"{p.tok}:" ++ (if p.self then "s" else "") ++ (match p.reply with | none => "q" | some d => showDest d))) ++ "]"
 
 def showConnOut : Out → String
   | .opened _ => "ok"
@@ -46,11 +49,13 @@ def parseConnEvent (ts : List String) : Option (Option Event) :=
   | "o" :: "b" :: _ => some (some (.open .binary))
   | "o" :: "t" :: _ => some (some (.open .text))
   | "i" :: c :: cid :: _ => do pure (some (.init (← c.toNat?) (← cid.toNat?)))
-  | "w" :: c :: tok :: imm :: _ => do pure (some (.will (← c.toNat?) (← tok.toNat?) (imm == "1")))
+  | "w" :: c :: tok :: imm :: sf :: _ => do pure (some (.will (← c.toNat?) (← tok.toNat?) (imm == "1") (sf == "1")))
+  | "w" :: c :: tok :: imm :: _ => do pure (some (.will (← c.toNat?) (← tok.toNat?) (imm == "1") false))
   | "q" :: c :: tok :: _ => do pure (some (.request (← c.toNat?) (← tok.toNat?)))
+  | "a" :: c :: _ => do pure (some (.admin (← c.toNat?)))
   | "d" :: tok :: _ => do pure (some (.deliver (← tok.toNat?)))
   | "x" :: c :: cause :: _ => do
-    let k ← (match cause with | "c" => some Cause.client | "e" => some Cause.protoErr | "s" => some Cause.server | _ => none)
+    let k ← (match cause with | "c" => some Cause.client | "e" => some Cause.protoErr | "s" => some Cause.server | "q" => some Cause.quit | _ => none)
     pure (some (.close (← c.toNat?) k))
   | _ => none
 
